@@ -172,13 +172,7 @@ theorem step_inv {p : Prog} {s s' : State} {u : Nat} (h : PInv p s) (hs : step p
         simp [fut, State.setUnit, State.emit, hst']
       | remote o =>
         cases hx : (s.units u).ctx with
-        | none =>
-          rw [hx] at hs hfu0
-          simp only [Option.some.injEq] at hs
-          subst hs
-          refine pinv_silent1 h hu rfl (fun w hw => fut_setUnit_ne hw) ?_ (hlt1 _ rfl)
-          rw [hfu0, denCode]
-          simp [fut, State.setUnit, hst', hx]
+        | none => rw [hx] at hs; cases hs
         | some a =>
           rw [hx] at hs hfu0
           simp only [Option.some.injEq] at hs
@@ -383,8 +377,10 @@ theorem step_shape {p : Prog} {s s' : State} {u : Nat} (hs : step p s u = some s
         exact ⟨(by simp [State.setUnit]), (by simp [State.setUnit]), (by intro v h; cases h),
           Or.inl (by intro w hw; simp [State.setUnit, State.emit, hw])⟩
       | remote o =>
-        cases hx : (s.units u).ctx <;>
-        · rw [hx] at hs
+        cases hx : (s.units u).ctx with
+        | none => rw [hx] at hs; cases hs
+        | some a =>
+          rw [hx] at hs
           simp only [Option.some.injEq] at hs; subst hs
           exact ⟨(by simp [State.setUnit]), (by simp [State.setUnit]), (by intro v h; cases h),
             Or.inl (by intro w hw; simp [State.setUnit, State.emit, hw])⟩
@@ -595,5 +591,177 @@ theorem allDone_of_mainDone {p : Prog} {s : State} (h : JInv p s) (hm : MainDone
       obtain ⟨w, hwv, hws, hwj⟩ := h.link v hv h0 hc
       rw [ih w hwv hws] at hwj
       cases hwj
+
+/-! ### every unit logs in its own program order -/
+
+def blocksOf (x : UState) : List (Nat × Bool) := x.toks.map (fun t => (t.1, t.2.2))
+
+theorem step_own {p : Prog} {s s' : State} {u : Nat} (hs : step p s u = some s') :
+    ∃ em : Option Rec, s'.log = em.toList ++ s.log ∧ (∀ r ∈ em.toList, r.unit = u) ∧
+      em.toList.map Rec.key ++ ownKeys (blocksOf (s'.units u)) (s'.units u).code =
+        ownKeys (blocksOf (s.units u)) (s.units u).code := by
+  unfold step at hs
+  simp only at hs
+  by_cases hst : (s.units u).started = false
+  · simp [hst] at hs
+  · have hst' : (s.units u).started = true := by simpa using hst
+    simp only [hst', Bool.true_eq_false, if_false] at hs
+    cases hc : (s.units u).code with
+    | nil => rw [hc] at hs; cases hs
+    | cons st rest =>
+      rw [hc] at hs
+      cases st with
+      | enter o =>
+        simp only [Option.some.injEq] at hs; subst hs
+        exact ⟨some ⟨u, o, .start, (s.units u).ctx⟩, rfl, (by simp), (by simp [ownKeys, blocksOf, State.setUnit, Rec.key])⟩
+      | exit =>
+        cases ht : (s.units u).toks with
+        | nil =>
+          rw [ht] at hs
+          simp only [Option.some.injEq] at hs; subst hs
+          exact ⟨none, rfl, (by simp), (by simp [ownKeys, blocksOf, State.setUnit, ht])⟩
+        | cons t ts =>
+          obtain ⟨o, old, fin⟩ := t
+          rw [ht] at hs
+          cases fin with
+          | true =>
+            simp only [Option.some.injEq] at hs; subst hs
+            exact ⟨some ⟨u, o, .end_, some o⟩, rfl, (by simp), (by simp [ownKeys, blocksOf, State.setUnit, ht, Rec.key])⟩
+          | false =>
+            simp only [Option.some.injEq] at hs; subst hs
+            exact ⟨none, rfl, (by simp), (by simp [ownKeys, blocksOf, State.setUnit, ht])⟩
+      | log o =>
+        simp only [Option.some.injEq] at hs; subst hs
+        exact ⟨some ⟨u, o, .msg, (s.units u).ctx⟩, rfl, (by simp), (by simp [ownKeys, blocksOf, State.setUnit, Rec.key])⟩
+      | create o =>
+        simp only [Option.some.injEq] at hs; subst hs
+        exact ⟨some ⟨u, o, .start, (s.units u).ctx⟩, rfl, (by simp), (by simp [ownKeys, blocksOf, State.setUnit, Rec.key])⟩
+      | remote o =>
+        cases hx : (s.units u).ctx with
+        | none => rw [hx] at hs; cases hs
+        | some a =>
+          rw [hx] at hs
+          simp only [Option.some.injEq] at hs; subst hs
+          exact ⟨some ⟨u, o, .start, some a⟩, rfl, (by simp), (by simp [ownKeys, blocksOf, State.setUnit, Rec.key])⟩
+      | withOf o =>
+        simp only at hs
+        split at hs
+        · simp only [Option.some.injEq] at hs; subst hs
+          exact ⟨none, rfl, (by simp), (by simp [ownKeys, blocksOf, State.setUnit])⟩
+        · cases hs
+      | ctxOf o =>
+        simp only at hs
+        split at hs
+        · simp only [Option.some.injEq] at hs; subst hs
+          exact ⟨none, rfl, (by simp), (by simp [ownKeys, blocksOf, State.setUnit])⟩
+        · cases hs
+      | join v =>
+        simp only at hs
+        split at hs
+        · simp only [Option.some.injEq] at hs; subst hs
+          exact ⟨none, rfl, (by simp), (by simp [ownKeys, blocksOf, State.setUnit])⟩
+        · cases hs
+      | spawnThread v =>
+        simp only at hs
+        split at hs
+        · rename_i hg
+          have hne : u ≠ v := Nat.ne_of_lt hg.1
+          simp only [Option.some.injEq] at hs; subst hs
+          exact ⟨none, rfl, (by simp), (by simp [ownKeys, blocksOf, State.setUnit, hne])⟩
+        · cases hs
+      | spawnTask v =>
+        simp only at hs
+        split at hs
+        · rename_i hg
+          have hne : u ≠ v := Nat.ne_of_lt hg.1
+          simp only [Option.some.injEq] at hs; subst hs
+          exact ⟨none, rfl, (by simp), (by simp [ownKeys, blocksOf, State.setUnit, hne])⟩
+        · cases hs
+
+structure OInv (p : Prog) (s : State) : Prop where
+  started : ∀ u, (s.units u).started = true →
+    unitKeys s.log u ++ ownKeys (blocksOf (s.units u)) (s.units u).code = ownKeys [] (p.code u)
+  idle : ∀ u, (s.units u).started = false → unitKeys s.log u = []
+
+theorem unitKeys_cons_ne {log : List Rec} {em : Option Rec} {u w : Nat} (h : ∀ r ∈ em.toList, r.unit = u) (hw : w ≠ u) :
+    unitKeys (em.toList ++ log) w = unitKeys log w := by
+  cases em with
+  | none => rfl
+  | some r =>
+    have hr : r.unit = u := h r (by simp)
+    have : (r.unit == w) = false := by simp [hr, Ne.symm hw]
+    simp [unitKeys, List.filter_cons, this]
+
+theorem unitKeys_cons_self {log : List Rec} {em : Option Rec} {u : Nat} (h : ∀ r ∈ em.toList, r.unit = u) :
+    unitKeys (em.toList ++ log) u = unitKeys log u ++ em.toList.map Rec.key := by
+  cases em with
+  | none => simp [unitKeys]
+  | some r =>
+    have hr : r.unit = u := h r (by simp)
+    simp [unitKeys, List.filter_cons, hr]
+
+theorem oinv_init (p : Prog) : OInv p (init p) := by
+  constructor
+  · intro u hu
+    by_cases h0 : u = 0
+    · subst h0; simp [init, unitKeys, blocksOf]
+    · simp [init, h0] at hu
+  · intro u _; simp [init, unitKeys]
+
+theorem oinv_step {p : Prog} {s s' : State} {u : Nat} (h : OInv p s) (hs : step p s u = some s') : OInv p s' := by
+  obtain ⟨em, hlog, hem, hown⟩ := step_own hs
+  obtain ⟨st, rest, hus, _, hus', _, _, hothers⟩ := step_shape hs
+  constructor
+  · intro w hw
+    rw [hlog]
+    by_cases hwu : w = u
+    · subst hwu
+      rw [unitKeys_cons_self hem, List.append_assoc, hown]
+      exact h.started w hus
+    · rw [unitKeys_cons_ne hem hwu]
+      rcases hothers with ho | ⟨v, _, _, _, hvs, _, hvc, hvt, _, ho⟩
+      · rw [ho w hwu] at hw ⊢; exact h.started w hw
+      · by_cases hwv : w = v
+        · subst hwv
+          rw [h.idle w hvs]
+          simp [blocksOf, hvt, hvc]
+        · rw [ho w hwu hwv] at hw ⊢; exact h.started w hw
+  · intro w hw
+    rw [hlog]
+    have hwu : w ≠ u := fun e => by rw [e, hus'] at hw; cases hw
+    rw [unitKeys_cons_ne hem hwu]
+    rcases hothers with ho | ⟨v, _, _, _, _, hvs', _, _, _, ho⟩
+    · rw [ho w hwu] at hw; exact h.idle w hw
+    · have hwv : w ≠ v := fun e => by rw [e, hvs'] at hw; cases hw
+      rw [ho w hwu hwv] at hw; exact h.idle w hw
+
+theorem oinv_run (p : Prog) (sched : List Nat) : OInv p (run p sched) := by
+  unfold run
+  suffices h : ∀ s, OInv p s → OInv p (sched.foldl (stepD p) s) from h _ (oinv_init p)
+  induction sched with
+  | nil => intro s h; exact h
+  | cons u us ih =>
+    intro s h
+    apply ih
+    unfold stepD
+    cases hs : step p s u with
+    | none => exact h
+    | some s' => exact oinv_step h hs
+
+theorem eq_of_map_key_eq {S : List Rec} (hn : (S.map Rec.key).Nodup) :
+    ∀ (l₁ l₂ : List Rec), l₁.map Rec.key = l₂.map Rec.key → (∀ r ∈ l₁, r ∈ S) → (∀ r ∈ l₂, r ∈ S) → l₁ = l₂ := by
+  intro l₁
+  induction l₁ with
+  | nil => intro l₂ h _ _; cases l₂ with
+    | nil => rfl
+    | cons b l => simp at h
+  | cons a l ih =>
+    intro l₂ h h1 h2
+    cases l₂ with
+    | nil => simp at h
+    | cons b l' =>
+      simp only [List.map_cons, List.cons.injEq] at h
+      have hab : a = b := eq_of_key_eq hn (h1 a List.mem_cons_self) (h2 b List.mem_cons_self) h.1
+      rw [hab, ih l' h.2 (fun r hr => h1 r (List.mem_cons_of_mem _ hr)) (fun r hr => h2 r (List.mem_cons_of_mem _ hr))]
 
 end Ctx
